@@ -553,7 +553,51 @@ pub fn gen_seq(rng: &mut Rng, max_len: usize) -> Case {
         }
     };
     let mut attempts = 0;
-    while ops.len() < len {
+    // a share of the runs starts with a wait-list stress phase: several pending futures of one side are
+    // registered, some are dropped / re-polled, then the other side is served
+    let stress = rng.chance(1, 5);
+    let mut forced: Vec<Op> = Vec::new();
+    if stress {
+        let send_side = rng.chance(2, 3);
+        let k = rng.range(2, 5) as usize;
+        if send_side {
+            // fill the buffer first so that the futures have to wait
+            if let Cap::Bounded(n) = cap {
+                for _ in 0..n {
+                    forced.push(Op::TrySend { h: 0, id: 0 });
+                }
+            }
+        }
+        for j in 0..k {
+            forced.push(if send_side { Op::FutSend { h: 0, id: 0 } } else { Op::FutRecv { h: 1 } });
+            forced.push(Op::FutPoll { f: j as u8, new_waker: false });
+        }
+        for _ in 0..rng.range(1, 3) {
+            let f = rng.below(k as u64) as u8;
+            forced.push(if rng.chance(2, 3) { Op::FutDrop { f } } else { Op::FutPoll { f, new_waker: rng.chance(1, 2) } });
+        }
+        for _ in 0..k + 1 {
+            forced.push(if send_side {
+                match rng.below(4) {
+                    0 => Op::TryRecv { h: 1 },
+                    1 => Op::RecvTimeout { h: 1, us: 0 },
+                    2 => Op::Drain { h: 1, pre: 0, spare: 0 },
+                    _ => Op::TryRecvRt { h: 1 },
+                }
+            } else {
+                match rng.below(3) {
+                    0 => Op::TrySend { h: 0, id: 0 },
+                    1 => Op::SendTimeout { h: 0, id: 0, us: 0 },
+                    _ => Op::TrySendOpt { h: 0, id: 0 },
+                }
+            });
+        }
+        for j in 0..k {
+            forced.push(Op::FutPoll { f: j as u8, new_waker: false });
+        }
+        forced.reverse();
+    }
+    while ops.len() < len || !forced.is_empty() {
         attempts += 1;
         if attempts > len * 20 + 100 {
             break;
@@ -666,6 +710,17 @@ pub fn gen_seq(rng: &mut Rng, max_len: usize) -> Case {
             }
             11 if !ls.is_empty() && rng.chance(1, 4) => Some(Op::SendNone { h: *rng.pick(&ls), which: rng.below(3) as u8 }),
             _ => None,
+        };
+        // forced operations of the stress phase take precedence (ids are assigned here)
+        let op = match forced.pop() {
+            Some(mut f) => {
+                match &mut f {
+                    Op::TrySend { id, .. } | Op::FutSend { id, .. } | Op::SendTimeout { id, .. } | Op::TrySendOpt { id, .. } => *id = next_id,
+                    _ => {}
+                }
+                Some(f)
+            }
+            None => op,
         };
         let Some(mut op) = op else { continue };
         // blocking calls only when the model says they complete at once
